@@ -117,6 +117,7 @@ def plan(tier, seed):
     for cap, m in ((2, 2), (3, 3), (4, 2)):
         for policy in ("min", "max"):
             shards.append((policy, cap, m, "setter"))
+            shards.append((policy, cap, m, "built"))
     # one long deterministic history on a heap of 300 elements (identifiers beyond 256)
     for policy in ("min", "max"):
         shards.append(("bigheap", policy, 300))
@@ -135,16 +136,23 @@ def warm():
     import opfython.core.heap  # noqa
 
 
-def heap_class(via_setter):
-    """The library's Heap, or a factory that constructs it with the OTHER policy and then assigns
-    the wanted one through the public `policy` property (on the still empty heap)."""
+def heap_class(how):
+    """The library's Heap (how = False); a factory that constructs it with the OTHER policy and then
+    assigns the wanted one through the public `policy` property on the still empty heap (how = True /
+    "setter"); or a factory that passes a policy string built at run time (how = "built": equal to,
+    but not the same object as, the literal in the library's source - e.g. read from a configuration)."""
     from opfython.core.heap import Heap
-    if not via_setter:
+    if not how:
         return Heap
 
+    def fresh(text):
+        return "".join(list(text))
+
     def make(size, policy):
-        h = Heap(size, "max" if policy == "min" else "min")
-        h.policy = policy
+        if how == "built":
+            return Heap(size, fresh(policy))
+        h = Heap(size, fresh("max" if policy == "min" else "min"))
+        h.policy = fresh(policy)
         return h
     return make
 
@@ -497,12 +505,12 @@ def run(shard, seed):
     if shard[0] == "bigheap":
         return run_big(shard, seed)
     if len(shard) == 4:
-        return _run_bfs(heap_class(True), c, shard[:3], seed)
+        return _run_bfs(heap_class(shard[3]), c, shard[:3], seed, shard[3])
     return _run_bfs(Heap, c, shard, seed)
 
 
-def _run_bfs(Heap, c, shard, seed):
-    via_setter = Heap is not heap_class(False)
+def _run_bfs(Heap, c, shard, seed, how=None):
+    via_setter = bool(how)
     policy, size, m = shard
     keys = key_table(seed, m)
     REINSERT[0] = (m == "re2")
@@ -539,7 +547,7 @@ def _run_bfs(Heap, c, shard, seed):
     res.traces = res.transitions  # every transition compared with the reference
     if via_setter:
         for v in res.violations:
-            v["program"] = dict(v["program"], via_setter=True)
+            v["program"] = dict(v["program"], via_setter=how)
     return res
 
 
@@ -549,7 +557,7 @@ def replay(case):
     prog = case["program"]
     policy, size = prog["policy"], prog["size"]
     ops = [tuple(o) for o in prog["ops"]]
-    Heap = heap_class(bool(prog.get("via_setter")))
+    Heap = heap_class(prog.get("via_setter") or False)
     h = Heap(size, policy)
     ref = ((WHITE,) * size, (None,) * size)
     for i, op in enumerate(ops):
